@@ -1494,3 +1494,189 @@ Section ExtraProofs.
       destruct (if negb isRoot then _ else _); cbn [units ret err]; lia.
   Qed.
 End ExtraProofs.
+
+(* ------------------------------------------------------------------------------------------ *)
+(* the whole DecodeSlab                                                                        *)
+(* ------------------------------------------------------------------------------------------ *)
+
+Section WholeProofs.
+  Variable wellformed : bytes -> option (citem * N).
+  Variable decode_type_info : citem -> bool.
+  Variable utf8_valid : bytes -> bool.
+  (* the modelled facts about fxamacker/cbor: a validated item lies inside the input, and every node of the
+     item and every payload byte of a string occupies at least one input byte *)
+  Hypothesis wellformed_len : forall d it n, wellformed d = Some (it, n) -> n <= lenN d /\ csize it <= n.
+
+  Let ael := go_array_extra_len wellformed decode_type_info.
+  Let mel := go_map_extra_len wellformed decode_type_info.
+  Let iel := fun fuel => go_inlined_extra_len wellformed decode_type_info utf8_valid fuel.
+
+  Lemma ael_le d n : ael d = Some n -> n <= lenN d.
+  Proof.
+    unfold ael, go_array_extra_len. destruct (wellformed d) as [[it m]|] eqn:E; [|discriminate].
+    destruct (is_val _); [|discriminate]. intros H; inversion H; subst. apply (wellformed_len _ _ _ E).
+  Qed.
+  Lemma mel_le d n : mel d = Some n -> n <= lenN d.
+  Proof.
+    unfold mel, go_map_extra_len. destruct (wellformed d) as [[it m]|] eqn:E; [|discriminate].
+    destruct (is_val _); [|discriminate]. intros H; inversion H; subst. apply (wellformed_len _ _ _ E).
+  Qed.
+  Lemma iel_le fuel d n : iel fuel d = Some n -> n <= lenN d.
+  Proof.
+    unfold iel, go_inlined_extra_len. destruct (wellformed d) as [[it m]|] eqn:E; [|discriminate].
+    destruct (is_val _); [|discriminate]. intros H; inversion H; subst. apply (wellformed_len _ _ _ E).
+  Qed.
+
+  Lemma decode_inlined_safe fuel inlb bound :
+    (forall ib, inlb = Some ib -> lenN ib <= bound) ->
+    np (decode_inlined wellformed decode_type_info utf8_valid fuel inlb) /\
+    units (decode_inlined wellformed decode_type_info utf8_valid fuel inlb) <= 2 * bound /\
+    (forall ied, out (decode_inlined wellformed decode_type_info utf8_valid fuel inlb) = Val ied -> Forall wf_extra ied).
+  Proof.
+    intros Hb. unfold decode_inlined. destruct inlb as [ib|].
+    - specialize (Hb ib eq_refl).
+      destruct (wellformed ib) as [[it n]|] eqn:E.
+      + destruct (wellformed_len _ _ _ E) as [Hn Hc].
+        split; [apply np_newInlinedExtraData|]. split.
+        * pose proof (units_newInlinedExtraData decode_type_info utf8_valid fuel (lenN ib) it). lia.
+        * intros ied. apply newInlinedExtraData_wf.
+      + split; [apply np_err|]. split; [cbn; lia|]. cbn; discriminate.
+    - split; [apply np_ret|]. split; [cbn; lia|]. cbn. intros ied H; inversion H; constructor.
+  Qed.
+
+  Theorem decode_slab_go_safe id data :
+    np (decode_slab_go_m wellformed decode_type_info utf8_valid id data) /\
+    units (decode_slab_go_m wellformed decode_type_info utf8_valid id data) <= 5 * (lenN data + 1).
+  Proof.
+    unfold decode_slab_go_m. set (fuel := fuel_of data).
+    pose proof (decode_slab_fixed_safe ael mel (iel fuel) ael_le mel_le (iel_le fuel) id data) as [Hnp Hu].
+    pose proof (decode_slab_fixed_sizes ael mel (iel fuel) ael_le mel_le (iel_le fuel) id data) as Hsz.
+    fold ael mel. change (go_inlined_extra_len wellformed decode_type_info utf8_valid fuel) with (iel fuel).
+    split.
+    - apply np_bind; [exact Hnp|]. intros r Hr. specialize (Hsz r Hr).
+      destruct r as [s|s|h next inlb content|h next inlb content|content]; try apply np_ret.
+      + destruct Hsz as [Hc Hi].
+        apply np_bind; [apply (decode_inlined_safe fuel inlb (lenN data) Hi)|]. intros ied _.
+        destruct (wellformed content) as [[it n]|]; [|apply np_err].
+        apply np_bind; [apply (proj1 (array_data_elements_safe decode_type_info utf8_valid fuel id ied (h_isRoot h) (h_version h =? 1) it (lenN content - n)))|]. intros; apply np_ret.
+      + destruct Hsz as [Hc Hi].
+        apply np_bind; [apply (decode_inlined_safe fuel inlb (lenN data) Hi)|]. intros ied _.
+        destruct (wellformed content) as [[it n]|]; [|apply np_err].
+        apply np_bind; [apply (proj1 (map_data_elements_safe decode_type_info utf8_valid fuel id ied (h_isRoot h) it))|]. intros; apply np_ret.
+      + destruct (wellformed content) as [[it n]|]; [|apply np_err].
+        apply np_bind; [apply (items_no_panic utf8_valid fuel)|]. intros; apply np_ret.
+    - rewrite units_bind.
+      destruct (out (decode_slab_fixed_m ael mel (iel fuel) id data)) as [r| |] eqn:Hr; try lia.
+      specialize (Hsz r eq_refl).
+      destruct r as [s|s|h next inlb content|h next inlb content|content]; cbn [units ret]; try lia.
+      + destruct Hsz as [Hc Hi].
+        destruct (decode_inlined_safe fuel inlb (lenN data) Hi) as (_ & Hui & Hwf).
+        rewrite units_bind.
+        destruct (out (decode_inlined wellformed decode_type_info utf8_valid fuel inlb)) as [ied| |] eqn:Hied; try lia.
+        specialize (Hwf ied eq_refl).
+        destruct (wellformed content) as [[it n]|] eqn:E; cbn [units err]; [|lia].
+        destruct (wellformed_len _ _ _ E) as [Hn Hcs].
+        rewrite units_bind.
+        pose proof (proj2 (array_data_elements_safe decode_type_info utf8_valid fuel id ied (h_isRoot h) (h_version h =? 1) it (lenN content - n)) Hwf).
+        destruct (out (arrayDataElements _ _ _ _ _ _ _ _)); cbn [units ret]; lia.
+      + destruct Hsz as [Hc Hi].
+        destruct (decode_inlined_safe fuel inlb (lenN data) Hi) as (_ & Hui & Hwf).
+        rewrite units_bind.
+        destruct (out (decode_inlined wellformed decode_type_info utf8_valid fuel inlb)) as [ied| |] eqn:Hied; try lia.
+        specialize (Hwf ied eq_refl).
+        destruct (wellformed content) as [[it n]|] eqn:E; cbn [units err]; [|lia].
+        destruct (wellformed_len _ _ _ E) as [Hn Hcs].
+        rewrite units_bind.
+        pose proof (proj2 (map_data_elements_safe decode_type_info utf8_valid fuel id ied (h_isRoot h) it) Hwf).
+        destruct (out (mapDataElements _ _ _ _ _ _)); cbn [units ret]; lia.
+      + cbn [res_sizes] in Hsz.
+        destruct (wellformed content) as [[it n]|] eqn:E; cbn [units err]; [|lia].
+        destruct (wellformed_len _ _ _ E) as [Hn Hcs].
+        rewrite units_bind.
+        pose proof (proj1 (items_alloc utf8_valid fuel) id [] it (Forall_nil _)).
+        destruct (out (decodeStorable _ _ _ _ _)); cbn [units ret]; lia.
+  Qed.
+End WholeProofs.
+
+(* accessors on whatever DecodeSlab returned: total functions of the decoded value *)
+Lemma accessors_no_panic : forall s fuel, byte_size_go s <> Panic /\ child_storables_go fuel s <> Panic.
+Proof.
+  intros s fuel. split.
+  - destruct s; cbn; discriminate.
+  - destruct s as [m|m|n st|n st|st]; cbn; try discriminate.
+    + destruct st; discriminate.
+    + destruct st; discriminate.
+Qed.
+
+(* the assumption NumBytesDecoded() <= len(data) is needed: without it `data[n:]` panics *)
+Lemma after_extra_needs_bound : exists el d, out (after_extra el d) = Panic.
+Proof. exists (fun _ => Some 1), []. reflexivity. Qed.
+
+(* ------------------------------------------------------------------------------------------ *)
+(* the concrete extra-data parsers of the trace engine satisfy the cbor assumption             *)
+(* ------------------------------------------------------------------------------------------ *)
+From AtreeModel Require Import Proto DecodeTrace.
+
+Lemma cbor_head_le d m v hl : cbor_head d = Some (m, v, hl) -> 1 <= hl /\ hl <= lenN d.
+Proof.
+  unfold cbor_head. destruct d as [|b r]; [discriminate|].
+  rewrite lenN_cons.
+  repeat match goal with |- context [if ?c then _ else _] => destruct c eqn:? end;
+    intros H; inversion H; subst; lia.
+Qed.
+
+Lemma uint_len_le d n : uint_len d = Some n -> 1 <= n /\ n <= lenN d.
+Proof.
+  unfold uint_len. destruct (cbor_head d) as [[[m v] hl]|] eqn:E; [|discriminate].
+  destruct m; [|discriminate]. intros H; inversion H; subst. eapply cbor_head_le; eassumption.
+Qed.
+
+Lemma typeinfo_len_le d n : typeinfo_len d = Some n -> n <= lenN d.
+Proof.
+  unfold typeinfo_len. destruct (cbor_head d) as [[[m v] hl]|] eqn:E; [|discriminate].
+  apply cbor_head_le in E as [E1 E2].
+  destruct m as [|p]; [intros H; inversion H; subst; lia|].
+  destruct p as [p|p|]; try discriminate. destruct p as [p|p|]; try discriminate. destruct p; try discriminate.
+  destruct ((v =? 200) || (v =? 246)); [|discriminate].
+  destruct (uint_len (skipn (N.to_nat hl) d)) as [ul|] eqn:Eu; [|discriminate].
+  apply uint_len_le in Eu as [_ Eu]. rewrite lenN_skipn in Eu.
+  intros H; inversion H; subst. lia.
+Qed.
+
+Lemma concrete_array_extra_le d n : concrete_array_extra_len d = Some n -> n <= lenN d.
+Proof.
+  unfold concrete_array_extra_len. destruct (cbor_head d) as [[[m v] hl]|] eqn:E; [|discriminate].
+  apply cbor_head_le in E as [E1 E2].
+  destruct m as [|p]; try discriminate. destruct p as [p|p|]; try discriminate.
+  destruct p as [p|p|]; try discriminate. destruct p; try discriminate.
+  destruct v as [|q]; try discriminate. destruct q; try discriminate.
+  destruct (typeinfo_len (skipn (N.to_nat hl) d)) as [tl|] eqn:Et; [|discriminate].
+  apply typeinfo_len_le in Et. rewrite lenN_skipn in Et. intros H; inversion H; subst. lia.
+Qed.
+
+Lemma concrete_map_extra_le d n : concrete_map_extra_len d = Some n -> n <= lenN d.
+Proof.
+  unfold concrete_map_extra_len. destruct (cbor_head d) as [[[m v] hl]|] eqn:E; [|discriminate].
+  apply cbor_head_le in E as [E1 E2].
+  destruct m as [|p]; try discriminate. destruct p as [p|p|]; try discriminate.
+  destruct p as [p|p|]; try discriminate. destruct p; try discriminate.
+  destruct v as [|q]; try discriminate. destruct q as [q|q|]; try discriminate. destruct q; try discriminate.
+  destruct (typeinfo_len (skipn (N.to_nat hl) d)) as [tl|] eqn:Et; [|discriminate].
+  apply typeinfo_len_le in Et. rewrite lenN_skipn in Et.
+  destruct (uint_len (skipn (N.to_nat tl) (skipn (N.to_nat hl) d))) as [cl|] eqn:Ec; [|discriminate].
+  apply uint_len_le in Ec as [_ Ec]. rewrite !lenN_skipn in Ec.
+  destruct (uint_len (skipn (N.to_nat cl) (skipn (N.to_nat tl) (skipn (N.to_nat hl) d)))) as [sl|] eqn:Es; [|discriminate].
+  apply uint_len_le in Es as [_ Es]. rewrite !lenN_skipn in Es.
+  intros H; inversion H; subst. lia.
+Qed.
+
+Lemma no_inlined_extra_le d n : no_inlined_extra_len d = Some n -> n <= lenN d.
+Proof. discriminate. Qed.
+
+(* the decoder the trace engine runs (and the Go harness is compared against) never panics *)
+Theorem decode_concrete_safe id data :
+  decode_concrete id data <> Panic /\
+  alloc_units_fixed concrete_array_extra_len concrete_map_extra_len no_inlined_extra_len id data <= lenN data.
+Proof.
+  exact (decode_slab_fixed_safe _ _ _ concrete_array_extra_le concrete_map_extra_le no_inlined_extra_le id data).
+Qed.
